@@ -12,7 +12,7 @@ func init() {
 	registry.RegisterAnyConverter(reflect.TypeOf((*scanArg)(nil)),
 		func(in any) (any, bool) {
 			sa := in.(*scanArg)
-			if sa.argValue != nil {
+			if sa != nil && sa.argValue != nil {
 				return sa.Arg(), true
 			}
 			return ugo.Undefined, false
